@@ -16,6 +16,9 @@ ASSUMPTIONS = ["both devices start from equal states; masking: position field of
 def shards(tier):
     out = []
     geos = [("p2x2", "p2x2"), ("p2x2", "t3x2"), ("t3x2", "p2x2"), ("t3x2", "t3x2")] + ([("p3x2", "p8x2"), ("t8x1", "p8x2")] if tier == "thorough" else [])
+    out.append(dict(op="transfer", sgeo="p2x2", dgeo="t3x2", k=2, steps=1, partition_by="auto", washes=[1], ncand=2, comp=False, wl_max=common.BIG * 2, bcast=["src:scalar", "dst:list1", "vol:scalar", "src:list1+vol:list1"]))
+    out.append(dict(op="transfer", sgeo="lt3x2", dgeo="p2x2", k=2, steps=1, partition_by="auto", washes=[1], ncand=2, comp=False, wl_max=common.BIG * 2))
+    out.append(dict(op="aspirate", sgeo="lt3x2", dgeo="p2x2", k=2, steps=1, comp=False))
     # a trough and a plate of identical shape in one worklist
     for sg, dg in [("t2x2", "p2x2"), ("p2x2", "t2x2")]:
         out.append(dict(op="transfer", sgeo=sg, dgeo=dg, k=2, steps=1, partition_by="auto", washes=[1], ncand=2, comp=False, wl_max=common.BIG * 2))
